@@ -4,7 +4,7 @@ Helper lemmas for C06 (simple fonts).  Property theorems are in `Props/C06.lean`
 import PdfVerif.Spec.SimpleFont
 
 namespace PdfVerif.SimpleFont
-open PdfVerif PdfVerif.SimpleFont.Spec
+open PdfVerif PdfVerif.SimpleFont.Spec PdfVerif.Gen.FontCode
 
 /-! ### association lists -/
 
@@ -279,6 +279,7 @@ theorem tlookup_foldl_addCid (defs : List (Int × List UInt8)) :
     intro m code hm hnc
     have hstep : addCid2Unichr m d.1 d.2 = (d.1, utf16beIgnore d.2) :: m := by
       unfold addCid2Unichr
+      simp only [COLLISION_NEW, COLLISION_OLD]
       by_cases hA : utf16beIgnore d.2 = [0xA0]
       · have := hm d (List.mem_cons_self) hA
         have h2 : (tlookup m d.1 == some [0x20]) = false := by simpa using this
